@@ -3,7 +3,7 @@
 A generated method set; one parameter's annotation is written in two equivalent ways (program A / program B):
   union:  member order permuted;  typing.Union[...] / A | B / the tuple (A, B);  Optional[A] / A | None / Union[None, A]
   object: missing annotation / typing.Any / object
-  any:    Annotated[A, ...] / A;   the string "A" / A
+  any:    Annotated[A, ...] / A;   the string "A" / A;   a string naming Annotated[A, ...] / A
   list:   list[A] / typing.List[A]
   Literal: values in another order
 Oracle (metamorphic): identical outcome vectors (kind, winner) over the whole call corpus.
@@ -53,7 +53,7 @@ def case_strategy():
         mid, pname = draw(st.sampled_from(cands))
         p = next(q for m in methods if m["id"] == mid for q in m["pos"] + m["kw"] if q["name"] == pname)
         a = p["ann"]
-        options = ["annotated", "string"]
+        options = ["annotated", "string", "string-annotated"]
         if a[0] == "union":
             options += ["union-permute", "union-pipe", "union-tuple", "union-permute-pipe"]
             if len(a[1]) == 2 and ["cls", "NoneType"] in a[1]:
@@ -89,6 +89,8 @@ def variant(spec):
         sp = {"wrap": "annotated"}
     elif how == "string":
         sp = {"wrap": "string"}
+    elif how == "string-annotated":
+        sp = {"wrap": "string", "annotated": True}
     elif how in ("union-permute", "union-permute-pipe"):
         p["ann"] = ["union", [p["ann"][1][i] for i in rs["perm"]]]
         if how.endswith("pipe"):
